@@ -548,7 +548,10 @@ func (w *world) authDirect(mode string, si int, nonce uint64, famt string, fgas 
 }
 
 // transferTo is the (non-reserved) recipient of every generated transfer.
-var transferTo = staking.NewAddress(memorySigner.NewTestSigner("verif authdrv recipient").Public())
+var (
+	transferPK = memorySigner.NewTestSigner("verif authdrv recipient").Public()
+	transferTo = staking.NewAddress(transferPK)
+)
 
 var reservedPK = func() signature.PublicKey {
 	// the public key behind staking.CommonPoolAddress (staking/api/address.go)
@@ -693,7 +696,16 @@ func runImpl(ops []string, res *hlib.Result) (lines []string, fails []hlib.Failu
 				out = []string{op}
 			case "sign":
 				name, si, cx, chain := f[1], atoi(f[2]), f[3], f[4]
-				if w.signer(si) == nil || (len(f) > 10 && w.signer(atoi(f[10])) == nil) {
+				if w.signer(si) == nil {
+					return
+				}
+				wrongPK := -1
+				for i, tok := range f {
+					if tok == "wrongpk" && i+1 < len(f) {
+						wrongPK = atoi(f[i+1])
+					}
+				}
+				if wrongPK >= 0 && w.signer(wrongPK) == nil {
 					return
 				}
 				fee := &transaction.Fee{Gas: transaction.Gas(atou(f[7]))}
@@ -709,8 +721,53 @@ func runImpl(ops []string, res *hlib.Result) (lines []string, fails []hlib.Failu
 				if method == "LONG" {
 					method = "foo." + strings.Repeat("x", 400)
 				}
-				tx := &transaction.Transaction{Nonce: atou(f[5]), Fee: fee, Method: transaction.MethodName(method),
-					Body: cbor.Marshal(&staking.Transfer{To: transferTo})}
+				// optional trailing tokens: to=<signer index>  amt=<n|ALL>  wrongpk <j>
+				// (ALL = the signer's committed balance minus the fee: drains the account to exactly zero);
+				// nonce CUR = the signer's committed nonce at signing time.
+				to, amt := transferTo, new(big.Int)
+				amtAll := false
+				for _, tok := range f[9:] {
+					switch {
+					case strings.HasPrefix(tok, "to="):
+						if t := w.signer(atoi(tok[3:])); t != nil {
+							to = staking.NewAddress(t.Public())
+						}
+					case tok == "amt=ALL":
+						amtAll = true
+					case strings.HasPrefix(tok, "amt="):
+						amt.SetString(tok[4:], 10)
+					}
+				}
+				var curNonce uint64
+				if f[5] == "CUR" || amtAll {
+					var bal string
+					if w.mw != nil && w.mw.v != nil {
+						curNonce, bal = w.mw.committed(w.mw.v, w.signers[si].Public())
+					} else if w.mw == nil {
+						curNonce, bal = w.account(w.signers[si].Public())
+					}
+					if amtAll {
+						amt.SetString(bal, 10)
+						if amt.Cmp(n) >= 0 {
+							amt.Sub(amt, n)
+						}
+					}
+				}
+				txNonce := curNonce
+				if f[5] != "CUR" {
+					txNonce = atou(f[5])
+				}
+				var body any
+				var q quantity.Quantity
+				_ = q.FromBigInt(amt)
+				switch method {
+				case "staking.Burn":
+					body = &staking.Burn{Amount: q}
+				default:
+					body = &staking.Transfer{To: to, Amount: q}
+				}
+				tx := &transaction.Transaction{Nonce: txNonce, Fee: fee, Method: transaction.MethodName(method),
+					Body: cbor.Marshal(body)}
 				if chain == "B" {
 					setChain(w.chainB)
 				}
@@ -740,8 +797,8 @@ func runImpl(ops []string, res *hlib.Result) (lines []string, fails []hlib.Failu
 				case chain == "B":
 					origin = "xchain"
 				}
-				if len(f) > 10 && f[9] == "wrongpk" {
-					signed.Signature.PublicKey = w.signers[atoi(f[10])].Public()
+				if wrongPK >= 0 {
+					signed.Signature.PublicKey = w.signers[wrongPK].Public()
 					origin = "wrongpk"
 				}
 				if origin == "fresh" {
@@ -866,6 +923,12 @@ func sigOf(detail string) string {
 	switch {
 	case strings.Contains(detail, "panicked"):
 		return "panic"
+	case strings.Contains(detail, "decreased"):
+		return "spec-nonce-decreased"
+	case strings.Contains(detail, "changed outside authentication"):
+		return "spec-nonce-changed-outside-auth"
+	case strings.Contains(detail, "after block"):
+		return "diverge-account"
 	case strings.Contains(detail, "authenticated twice"):
 		return "spec-replay"
 	case strings.Contains(detail, "authenticated without valid"):
